@@ -433,6 +433,9 @@ func ToReal(a *Term) *Term {
 	if a.Sort == SReal {
 		return a
 	}
+	if a.Sort == SXReal {
+		panic("ToReal on an extended real: " + a.String())
+	}
 	if a.Op == "int" {
 		return RealLitStr(a.Name)
 	}
@@ -846,6 +849,36 @@ func rebuild(t *Term, args []*Term, pats [][]*Term) *Term {
 		return Forall(t.Bound, args[0], pats...)
 	case "exists":
 		return Exists(t.Bound, args[0])
+	case "x_add":
+		return XAdd(args[0], args[1])
+	case "x_sub":
+		return XSub(args[0], args[1])
+	case "x_mul":
+		return XMul(args[0], args[1])
+	case "x_div":
+		return XDiv(args[0], args[1])
+	case "x_neg":
+		return XNeg(args[0])
+	case "x_lt":
+		return XCmp("<", args[0], args[1])
+	case "x_le":
+		return XCmp("<=", args[0], args[1])
+	case "x_eq":
+		return XEq(args[0], args[1])
+	case "(_ is Fin)":
+		return XIsFin(args[0])
+	case "(_ is NaN)":
+		return XIsNaN(args[0])
+	case "(_ is PInf)":
+		return XIsPInf(args[0])
+	case "(_ is NInf)":
+		return XIsNInf(args[0])
+	case "fv":
+		return XVal(args[0])
+	case "/":
+		if len(args) == 2 {
+			return RDiv(args[0], args[1])
+		}
 	}
 	return TB.intern(&Term{Op: t.Op, Name: t.Name, Args: args, Sort: t.Sort, Bound: t.Bound, Pats: pats})
 }
